@@ -8,11 +8,12 @@ s=$(mktemp -d /tmp/confirm-XXXXXX); trap 'rm -rf "$s"' EXIT
 rsync -a --exclude .git --exclude _examples --exclude docs /repo/ "$s/"
 export GOFLAGS=-mod=mod GOPROXY=off GOSUMDB=off GOTOOLCHAIN=local
 cp "$demo" "$s/$pkg/zz_seed_demo_test.go"
+race=""; grep -qs "must be run with .-race\|go test -race" "$(dirname "$patch")/notes.md" && race="-race"
 cd "$s"
-clean=$(go test -count=1 -run "$re" ./$pkg/ 2>&1 | tail -1)
+clean=$(go test $race -count=1 -run "$re" ./$pkg/ 2>&1 | tail -1)
 (git apply --whitespace=nowarn "$patch" 2>/dev/null || patch -p1 -s < "$patch") || { echo "CONFIRM: patch does not apply"; exit 3; }
 b1=$(go build ./... 2>&1 | tail -1); b2=$(go build -tags verif ./... 2>&1 | tail -1)
-mut=$(go test -count=1 -run "$re" ./$pkg/ 2>&1 | tail -1)
+mut=$(go test $race -count=1 -run "$re" ./$pkg/ 2>&1 | tail -1)
 echo "CONFIRM demo clean: $clean"
 echo "CONFIRM demo with change: $mut"
 echo "CONFIRM build: [${b1}] [${b2}]"
